@@ -12,6 +12,7 @@
 #include <new>
 #include <typeinfo>
 #include <functional>
+#include <algorithm>
 
 namespace c14r {
 
@@ -46,6 +47,7 @@ struct Rej {
 template <typename T> struct Call {
   std::string method;    // Class::method  (the finding's site)
   std::string kind;      // what makes the call ill-formed (the finding's trigger)
+  std::string arg_state; // for system arguments: how the argument was obtained (hand-built / which accessor state)
   std::string expect;    // documented exception class
   bool lazy;             // the call may legitimately compute (and cache) before it rejects: representation may change
   std::function<bool(const T&)> applicable;
@@ -84,7 +86,10 @@ Verdict run_case(const Menu<T>& m, size_t si, size_t ci) {
   if (!rj.threw) v.problems.push_back(std::make_pair("accepted", "no exception: the ill-formed call was silently accepted"));
   else if (rj.cls != c.expect) v.problems.push_back(std::make_pair("wrong_exception_class", "std::" + rj.cls + " thrown (" + rj.what.substr(0, 120) + ")"));
   // (a const operand may be minimized lazily by a call that computes before it rejects)
-  if (!c.lazy) for (size_t i = 0; i < rj.operand_problems.size(); ++i) v.problems.push_back(std::make_pair("operand_changed", rj.operand_problems[i]));
+  for (size_t i = 0; i < rj.operand_problems.size(); ++i) {
+    if (rj.operand_problems[i].compare(0, 8, "harness:") == 0) v.problems.push_back(std::make_pair("harness", rj.operand_problems[i]));
+    else if (!c.lazy) v.problems.push_back(std::make_pair("operand_changed", rj.operand_problems[i]));
+  }
   const std::string d1 = vf::dump_of(x);
   bool ok = x.OK();
   if (!ok) v.problems.push_back(std::make_pair("not_ok", "receiver.OK() is false after the rejected call"));
@@ -112,7 +117,7 @@ struct Runner {
   std::string cls; size_t nstates, ncalls;
   std::function<Verdict(size_t, size_t)> run;
   std::function<std::string(size_t)> state_name;
-  std::function<std::string(size_t)> call_method, call_kind, call_expect;
+  std::function<std::string(size_t)> call_method, call_kind, call_expect, call_arg_state;
 };
 template <typename T> Runner make_runner(const Menu<T>* m) {   // m must stay alive
   Runner r; r.cls = m->cls; r.nstates = m->states.size(); r.ncalls = m->calls.size();
@@ -121,6 +126,7 @@ template <typename T> Runner make_runner(const Menu<T>* m) {   // m must stay al
   r.call_method = [m](size_t c) { return m->calls[c].method; };
   r.call_kind = [m](size_t c) { return m->calls[c].kind; };
   r.call_expect = [m](size_t c) { return m->calls[c].expect; };
+  r.call_arg_state = [m](size_t c) { return m->calls[c].arg_state; };
   return r;
 }
 std::vector<Runner>& runners();
@@ -136,6 +142,132 @@ inline bool same_cells(const ref::Cell& a, const ref::Cell& b, std::string& why)
   vf::RefGuard g;
   if (ref::equal(a, b)) return true;
   why = "{" + ref::cell_str(a) + "} vs {" + ref::cell_str(b) + "}"; return false;
+}
+
+
+// ---- ill-formed *system* arguments in every lazy representation state ---------------------------
+// A Constraint_System / Generator_System / Congruence_System argument is presented not only hand-built but also
+// as the object a public accessor hands out by const reference: with pending rows (polyhedron minimized first,
+// culprit added afterwards), not minimized, minimized, and obtained by conversion from the dual description.
+enum SysState { SY_HAND = 0, SY_PENDING, SY_UNMIN, SY_MIN, SY_DUAL, SY_N };
+inline const char* sys_state_name(int s) {
+  static const char* n[] = { "hand_built", "accessor_with_pending_rows", "accessor_not_minimized", "accessor_minimized", "accessor_after_conversion" };
+  return n[s];
+}
+enum CsKind { CK_STRICT, CK_DIM, CK_NONBD, CK_INEQ };
+struct CsSource {
+  NNC_Polyhedron nnc; C_Polyhedron c; Constraint_System hand; const Constraint_System* cs; bool pending_ok;
+  CsSource() : nnc(0), c(0), cs(0), pending_ok(true) {}
+};
+template <typename PH>
+inline const Constraint_System* cs_from(PH& holder, dimension_type d, const Constraint_System& base, const Constraint& culprit, int st, bool& pending_ok) {
+  PH p(d);
+  if (st == SY_PENDING) {
+    p.add_constraints(base);
+    (void) p.minimized_generators(); (void) p.minimized_constraints();
+    p.add_constraint(culprit);                       // now a pending row
+    holder.m_swap(p);
+    const Constraint_System& r = holder.constraints();
+    pending_ok = r.sys.first_pending_row() < r.sys.num_rows();
+    return &r;
+  }
+  p.add_constraints(base); p.add_constraint(culprit);
+  if (st == SY_DUAL) { Generator_System gs(p.generators()); PH q(gs); holder.m_swap(q); return &holder.constraints(); }
+  holder.m_swap(p);
+  return st == SY_MIN ? &holder.minimized_constraints() : &holder.constraints();
+}
+// n: space dimension of the receiver
+inline void make_cs(CsSource& s, CsKind kind, int st, dimension_type n) {
+  const Variable A(0), B(1);
+  dimension_type d = kind == CK_DIM ? n + 1 : kind == CK_NONBD ? std::max<dimension_type>(n, 2) : std::max<dimension_type>(n, 1);
+  Constraint_System base; if (kind != CK_INEQ) base.insert(A >= 0);
+  Constraint culprit = kind == CK_STRICT ? (A < 7) : kind == CK_DIM ? (le_dim(n + 1) <= 7) : kind == CK_NONBD ? (2 * A - 3 * B <= 1) : (A <= 7);
+  if (st == SY_HAND) { s.hand = base; s.hand.insert(culprit); s.cs = &s.hand; return; }
+  if (kind == CK_STRICT) s.cs = cs_from(s.nnc, d, base, culprit, st, s.pending_ok);
+  else s.cs = cs_from(s.c, d, base, culprit, st, s.pending_ok);
+}
+template <typename T>
+inline void cs_variants(Menu<T>& m, const std::string& method, const std::string& reason, const std::string& expect, CsKind kind,
+                        std::function<void(T&, const Constraint_System&)> call, std::function<bool(const T&)> app = std::function<bool(const T&)>(), bool lazy = false) {
+  for (int st = 0; st < SY_N; ++st)
+    m.call(method, reason, expect, [kind, st, call](T& x, Rej& rj) {
+      CsSource s; make_cs(s, kind, st, x.space_dimension());
+      const Constraint_System& cs = *s.cs;
+      if (!s.pending_ok) rj.operand_problems.push_back("harness: the accessor did not return pending rows");
+      const std::string d0 = vf::dump_of(cs);
+      rj.attempt([&] { call(x, cs); });
+      rj.operand("cs", d0, vf::dump_of(cs));
+    }, lazy, app), m.calls.back().arg_state = sys_state_name(st);
+}
+
+enum GsKind { GK_CLOSURE, GK_DIM };
+struct GsSource { NNC_Polyhedron nnc; C_Polyhedron c; Generator_System hand; const Generator_System* gs; bool pending_ok; GsSource() : nnc(0), c(0), gs(0), pending_ok(true) {} };
+template <typename PH>
+inline const Generator_System* gs_from(PH& holder, dimension_type d, const Generator_System& base, const Generator& culprit, int st, bool& pending_ok) {
+  PH p(d, EMPTY);
+  if (st == SY_PENDING) {
+    p.add_generators(base);
+    (void) p.minimized_constraints(); (void) p.minimized_generators();
+    p.add_generator(culprit);
+    holder.m_swap(p);
+    const Generator_System& r = holder.generators();
+    pending_ok = r.sys.first_pending_row() < r.sys.num_rows();
+    return &r;
+  }
+  p.add_generators(base); p.add_generator(culprit);
+  if (st == SY_DUAL) { Constraint_System cs(p.constraints()); PH q(cs); holder.m_swap(q); return &holder.generators(); }
+  holder.m_swap(p);
+  return st == SY_MIN ? &holder.minimized_generators() : &holder.generators();
+}
+inline void make_gs(GsSource& s, GsKind kind, int st, dimension_type n) {
+  const Variable A(0);
+  dimension_type d = kind == GK_DIM ? n + 1 : std::max<dimension_type>(n, 1);
+  Generator_System base; base.insert(point(0 * Variable(d - 1))); base.insert(point(A));
+  Generator culprit = kind == GK_CLOSURE ? closure_point(3 * A) : point(le_dim(n + 1));
+  if (st == SY_HAND) { s.hand = base; s.hand.insert(culprit); s.gs = &s.hand; return; }
+  if (kind == GK_CLOSURE) s.gs = gs_from(s.nnc, d, base, culprit, st, s.pending_ok);
+  else s.gs = gs_from(s.c, d, base, culprit, st, s.pending_ok);
+}
+template <typename T>
+inline void gs_variants(Menu<T>& m, const std::string& method, const std::string& reason, const std::string& expect, GsKind kind,
+                        std::function<void(T&, const Generator_System&)> call, std::function<bool(const T&)> app = std::function<bool(const T&)>()) {
+  for (int st = 0; st < SY_N; ++st)
+    m.call(method, reason, expect, [kind, st, call](T& x, Rej& rj) {
+      GsSource s; make_gs(s, kind, st, x.space_dimension());
+      const Generator_System& gs = *s.gs;
+      if (!s.pending_ok) rj.operand_problems.push_back("harness: the accessor did not return pending rows");
+      const std::string d0 = vf::dump_of(gs);
+      rj.attempt([&] { call(x, gs); });
+      rj.operand("gs", d0, vf::dump_of(gs));
+    }, false, app), m.calls.back().arg_state = sys_state_name(st);
+}
+
+enum CgKind { GGK_PROPER, GGK_DIM };
+struct CgSource { Grid g; Congruence_System hand; const Congruence_System* cgs; CgSource() : g(0), cgs(0) {} };
+inline void make_cgs(CgSource& s, CgKind kind, int st, dimension_type n) {
+  const Variable A(0);
+  dimension_type d = kind == GGK_DIM ? n + 1 : std::max<dimension_type>(n, 1);
+  Congruence culprit = kind == GGK_PROPER ? ((A %= 1) / 2) : ((le_dim(n + 1) %= 1) / 2);
+  if (st == SY_HAND) { s.hand.insert(culprit); s.cgs = &s.hand; return; }
+  Grid p(d); p.add_congruence(culprit);
+  if (st == SY_DUAL || st == SY_PENDING) { Grid_Generator_System gg(p.grid_generators()); Grid q(gg); s.g.m_swap(q); s.cgs = &s.g.congruences(); return; }
+  s.g.m_swap(p);
+  s.cgs = st == SY_MIN ? &s.g.minimized_congruences() : &s.g.congruences();
+}
+template <typename T>
+inline void cgs_variants(Menu<T>& m, const std::string& method, const std::string& reason, const std::string& expect, CgKind kind,
+                         std::function<void(T&, const Congruence_System&)> call, std::function<bool(const T&)> app = std::function<bool(const T&)>()) {
+  for (int st = 0; st < SY_N; ++st) {
+    if (st == SY_PENDING) continue;   // grids have no pending rows
+    m.call(method, reason, expect, [kind, st, call](T& x, Rej& rj) {
+      CgSource s; make_cgs(s, kind, st, x.space_dimension());
+      const Congruence_System& cgs = *s.cgs;
+      const std::string d0 = vf::dump_of(cgs);
+      rj.attempt([&] { call(x, cgs); });
+      rj.operand("cgs", d0, vf::dump_of(cgs));
+    }, false, app);
+    m.calls.back().arg_state = sys_state_name(st);
+  }
 }
 
 } // namespace c14r
